@@ -1,8 +1,13 @@
 import Pyc.Proofs.Codec
+import Pyc.Proofs.CodecFuel
 
 /-! An executable check of the typing relation `HasType` (the scope of the generic round-trip theorem), sound with
 respect to it: `typedB S fuel t v = true → HasType S t v`.  The driver runs it on the values the harness generates
-from /repo's live classes, so the evidence says how many of the compared cases fall under the theorem. -/
+from /repo's live classes, so the evidence says how many of the compared cases fall under the theorem.
+
+The side condition of an ordered union is discharged *per value* by evaluation: `typedAnyB` runs every alternative that
+precedes the typing one on the value's image and demands `DeserializeException` (`rejectsB`); fuel monotonicity
+(`deser_stable`) turns that single run into the "for all sufficiently large fuel" premise of `HasType.union`. -/
 
 namespace Pyc.Codec
 open Pyc Pyc.Cbor Pyc.Schema
@@ -16,6 +21,27 @@ theorem intOkB_sound (i : Int) (h : intOkB i = true) : IntOk i := by
 def kindOpaqueB : Kind → Bool
   | .custom => true
   | .oset => true
+  | _ => false
+
+/-- the alternative answers `DeserializeException` on this item (one evaluation with the given fuel) -/
+def rejectsB (S : List ClassDef) (fuel : Nat) (t : Ty) (i : Item) : Bool :=
+  match fromPrim S fuel t i with
+  | .deser => true
+  | _ => false
+
+theorem rejectsB_sound (S : List ClassDef) (fuel : Nat) (t : Ty) (i : Item) (h : rejectsB S fuel t i = true) :
+    Ev (fun fuel => fromPrim S fuel t i = .deser) := by
+  unfold rejectsB at h
+  split at h
+  · rename_i hd; exact deser_stable S t i fuel hd
+  · exact absurd h (by decide)
+
+def isNoneB : Val → Bool
+  | .none => true
+  | _ => false
+
+def isOpaqueB : Val → Bool
+  | .opaque _ => true
   | _ => false
 
 mutual
@@ -49,18 +75,20 @@ def typedListB (S : List ClassDef) : Nat → Ty → List Val → Bool
 def typedAnyB (S : List ClassDef) : Nat → List Ty → Val → Bool
   | 0, _, _ => false
   | _+1, [], _ => false
-  | fuel+1, t :: ts, v => typedB S fuel t v || typedAnyB S fuel ts v
+  | fuel+1, t :: ts, v => typedB S fuel t v || (rejectsB S fuel t (toPrim S v) && typedAnyB S fuel ts v)
 def typedFieldsB (S : List ClassDef) : Nat → List FieldDef → List Val → Bool
   | 0, _, _ => false
   | _+1, [], [] => true
-  | fuel+1, f :: fs, v :: vs => typedB S fuel f.ty v && typedFieldsB S fuel fs vs
+  | fuel+1, f :: fs, v :: vs =>
+    ((f.optional && isNoneB v) || (f.hook && isOpaqueB v) || (!f.hook && typedB S fuel f.ty v)) && typedFieldsB S fuel fs vs
   | _+1, _, _ => false
 end
 
 theorem typed_sound (S : List ClassDef) : ∀ fuel,
     (∀ t v, typedB S fuel t v = true → HasType S t v) ∧
     (∀ t xs, typedListB S fuel t xs = true → HasTypeList S t xs) ∧
-    (∀ ts v, typedAnyB S fuel ts v = true → ∃ pre t post, ts = pre ++ t :: post ∧ HasType S t v) ∧
+    (∀ ts v, typedAnyB S fuel ts v = true → ∃ pre t post, ts = pre ++ t :: post ∧ HasType S t v ∧
+      ∀ t' ∈ pre, Ev (fun fuel => fromPrim S fuel t' (toPrim S v) = .deser)) ∧
     (∀ fs vs, typedFieldsB S fuel fs vs = true → HasFields S fs vs) := by
   intro fuel
   induction fuel with
@@ -91,8 +119,8 @@ theorem typed_sound (S : List ClassDef) : ∀ fuel,
         exact HasType.oset (ih2 _ _ h)
       | union ts =>
         simp only [typedB] at h
-        obtain ⟨pre, t, post, rfl, ht⟩ := ih3 _ _ h
-        exact HasType.union ht
+        obtain ⟨pre, t, post, rfl, ht, hrej⟩ := ih3 _ _ h
+        exact HasType.union ht hrej
       | cls n =>
         simp only [typedB] at h
         cases hl : lookup S n with
@@ -141,11 +169,16 @@ theorem typed_sound (S : List ClassDef) : ∀ fuel,
       cases ts with
       | nil => simp [typedAnyB] at h
       | cons t ts =>
-        simp only [typedAnyB, Bool.or_eq_true] at h
-        rcases h with h | h
-        · exact ⟨[], t, ts, rfl, ih1 _ _ h⟩
-        · obtain ⟨pre, t', post, rfl, ht⟩ := ih3 _ _ h
-          exact ⟨t :: pre, t', post, rfl, ht⟩
+        simp only [typedAnyB, Bool.or_eq_true, Bool.and_eq_true] at h
+        rcases h with h | ⟨hr, h⟩
+        · exact ⟨[], t, ts, rfl, ih1 _ _ h, by intro t' ht'; simp at ht'⟩
+        · obtain ⟨pre, t', post, rfl, ht, hrej⟩ := ih3 _ _ h
+          refine ⟨t :: pre, t', post, rfl, ht, ?_⟩
+          intro t'' ht''
+          simp only [List.mem_cons] at ht''
+          rcases ht'' with rfl | ht''
+          · exact rejectsB_sound S fuel _ _ hr
+          · exact hrej t'' ht''
     · intro fs vs h
       cases fs with
       | nil => cases vs with
@@ -154,8 +187,14 @@ theorem typed_sound (S : List ClassDef) : ∀ fuel,
       | cons f fs => cases vs with
         | nil => simp [typedFieldsB] at h
         | cons v vs =>
-          simp only [typedFieldsB, Bool.and_eq_true] at h
-          exact HasFields.cons (ih1 _ _ h.1) (ih4 _ _ h.2)
+          simp only [typedFieldsB, Bool.and_eq_true, Bool.or_eq_true, Bool.not_eq_true'] at h
+          obtain ⟨hf, hrest⟩ := h
+          rcases hf with (⟨ho, hn⟩ | ⟨hh, hq⟩) | ⟨hh, ht⟩
+          · match v, hn with
+            | .none, _ => exact HasFields.skip ho (ih4 _ _ hrest)
+          · match v, hq with
+            | .opaque i, _ => exact HasFields.hook hh (ih4 _ _ hrest)
+          · exact HasFields.cons hh (ih1 _ _ ht) (ih4 _ _ hrest)
 
 /-- **soundness of the executable typing check** -/
 theorem typedB_sound (S : List ClassDef) (fuel : Nat) (t : Ty) (v : Val) (h : typedB S fuel t v = true) :
